@@ -127,6 +127,23 @@ def check_case(ctx, c, rng):
         if isinstance(r2["result"], str) or not all(np.array_equal(x, y) for x, y in zip(result_arrays(r2["obj"], fam), snap1[0])):
             ctx.violation("same-call-same-result", dict(case=c, fft_state="none", fft_after_first=fft_after_first, fft_after_second=pg.fft_token(settings.fft_settings)),
                           seam="hvsrpy.process twice")
+    # ... and again after REFUSED calls in between (the same settings object handed faulty recordings, and other families failing on faulty recordings):
+    # what a failed call leaves behind -- in the settings object, in module-level state -- must not reach a later successful call
+    if (ctx.evaluations % 2 == 0 or fam in ("saz", "diff")) and pg.fft_token(c["fft"]) != "none":        # {"n": None} is the recorded finding C09-c
+        n_ref = fault_interleave(ctx, c, srecords, settings, rng)
+        ctx.supporting["fault_interleaved_cases"] = ctx.supporting.get("fault_interleaved_cases", 0) + 1
+        ctx.supporting["refused_calls_in_between"] = ctx.supporting.get("refused_calls_in_between", 0) + n_ref
+        same, what = snap_equal(before, snapshot(srecords))
+        if not same:
+            ctx.violation("recordings-left-as-they-were", dict(case=c, changed=what, after="refused calls in between"), seam="hvsrpy.process")
+            return
+        r3 = pg.run_impl(c, srecords, settings)
+        if isinstance(r3["result"], str) or not all(np.array_equal(x, y) for x, y in zip(result_arrays(r3["obj"], fam), snap1[0])):
+            ctx.violation("same-call-same-result", dict(case=c, history="process, process, REFUSED calls (same settings object on recordings with a non-finite sample; "
+                                                        "azimuthal / single-azimuth / diffuse-field / PSD calls refused on such recordings, an unknown taper), process",
+                                                        third=(r3.get("error") if isinstance(r3["result"], str) else "differs from the first result"),
+                                                        refused_calls=n_ref), seam="hvsrpy.process after refused calls")
+            return
     # interleaved with another processing on other records must not matter
     other = [pg.make_srecord(pg.gen_record(rng, n=64, dt=c["records"][0]["dt"]))]
     pg.run_impl(dict(c, records=None), other, pg.make_settings(c))
@@ -157,6 +174,50 @@ def check_case(ctx, c, rng):
         if snap_after[1] != snap1[1] and snap1[1] is not None:
             diff = [k for k in snap1[1] if snap_after[1].get(k) != snap1[1].get(k)]
         ctx.violation("result-unchanged-by-later-modifications", dict(case=c, meta_keys_changed=diff), seam="result vs inputs/settings aliasing")
+
+
+def fault_interleave(ctx, c, srecords, settings, rng):
+    """calls of process() that are refused at different depths of the pipeline; returns how many were refused. The caller's settings object is used for the
+    first ones (on faulty copies of the recordings), fresh settings objects for the other families."""
+    refused = 0
+    recs = copy.deepcopy(c["records"])
+    k = len(recs) // 2
+    variants = []
+    for comp, val in (("ns", np.nan), ("vt", np.inf), ("ew", -np.inf)):
+        bad = copy.deepcopy(recs)
+        bad[k][comp] = list(bad[k][comp]); bad[k][comp][len(bad[k][comp]) // 2] = float(val)
+        variants.append(bad)
+    dead = copy.deepcopy(recs)
+    dead[-1]["vt"] = [0.0] * len(dead[-1]["vt"])         # a dead vertical: division by zero -> non-finite curve -> refused late
+    variants.append(dead)
+    # (1) the caller's own settings object on faulty recordings
+    for bad in variants[:2] + variants[3:]:
+        r = pg.run_impl(c, [pg.make_srecord(x) for x in bad], settings)
+        refused += isinstance(r["result"], str)
+    # (2) the other families, fresh settings, faulty recordings (late refusals of the azimuthal loop, refusals inside the PSD step)
+    for fam2 in ("az", "saz", "diff", "psd", "rot"):
+        c2 = dict(c, family=fam2, azimuths=[0.0, 45.0, 100.0], azimuth=30.0, pct=50.0, policy="keeping_majority_time_step")
+        c2.pop("method", None)
+        for bad in (variants[int(rng.integers(0, 3))], variants[3]):
+            try:
+                r = pg.run_impl(c2, [pg.make_srecord(x) for x in bad], pg.make_settings(c2))
+            except Exception:       # noqa  (anything a faulty input provokes)
+                refused += 1
+                continue
+            refused += isinstance(r["result"], str)
+    # (3) an unknown taper and a malformed FFT length with the caller's kind of settings
+    for edit in ("taper", "fft"):
+        st = pg.make_settings(c)
+        if edit == "taper":
+            st.window_type_and_width = ["no-such-taper", 0.1]
+        else:
+            st.fft_settings = dict(n="many")
+        try:
+            r = pg.run_impl(c, [pg.make_srecord(x) for x in recs], st)
+            refused += isinstance(r["result"], str)
+        except Exception:           # noqa
+            refused += 1
+    return refused
 
 
 def witness_c09c(ctx):
